@@ -36,3 +36,52 @@ package watstrip
 //@   modifies allof(p.funcs[""].color)
 //@   safe
 //@   property C06
+
+// mod_ok(m): the parser's module invariants the pass relies on (no nil entries, functions have bodies)
+//@ spec mod_ok(m *ast.Module) bool := m != nil &&
+//@      (forall i int :: 0 <= i && i < len(m.Funcs) ==> m.Funcs[i] != nil && m.Funcs[i].Body != nil) &&
+//@      (forall i int :: 0 <= i && i < len(m.Imports) ==> m.Imports[i] != nil) &&
+//@      (forall i int :: 0 <= i && i < len(m.Exports) ==> m.Exports[i] != nil) &&
+//@      (forall i int :: 0 <= i && i < len(m.Elem) ==> m.Elem[i] != nil)
+// covers(p, m): every defined function and every imported function of m has an entry in the table
+//@ spec covers(p *_RemoveUnusedPass, m *ast.Module) bool :=
+//@      (forall i int :: 0 <= i && i < len(m.Funcs) ==> has(p.funcs, m.Funcs[i].Name)) &&
+//@      (forall i int :: 0 <= i && i < len(m.Imports) ==> (m.Imports[i].ObjKind == token.FUNC ==> has(p.funcs, m.Imports[i].FuncName)))
+
+//@ func new_RemoveUnusedPass
+//@   requires mod_ok(m)
+//@   loop 0 invariant -1 <= rangeindex && rangeindex < len(m.Imports) && m.Imports == old(m.Imports) && m.Funcs == old(m.Funcs)
+//@   loop 0 invariant forall i int :: 0 <= i && i < len(m.Funcs) ==> m.Funcs[i] != nil && m.Funcs[i].Body != nil
+//@   loop 0 invariant p != nil && p.m == m && p.funcs != nil && isfresh(p) && (forall k string :: has(p.funcs, k) ==> p.funcs[k] != nil && allocated(p.funcs[k]) && p.funcs[k].Func != nil && allocated(p.funcs[k].Func) && p.funcs[k].Func.Body != nil && p.funcs[k].Func.Name == k)
+//@   loop 0 invariant forall i int :: 0 <= i && i <= rangeindex ==> (m.Imports[i].ObjKind == token.FUNC ==> has(p.funcs, m.Imports[i].FuncName))
+//@   loop 1 invariant -1 <= rangeindex && rangeindex < len(m.Funcs) && m.Funcs == old(m.Funcs) && m.Imports == old(m.Imports)
+//@   loop 1 invariant forall i int :: 0 <= i && i < len(m.Funcs) ==> m.Funcs[i] != nil && m.Funcs[i].Body != nil
+//@   loop 1 invariant p != nil && p.m == m && p.funcs != nil && isfresh(p) && (forall k string :: has(p.funcs, k) ==> p.funcs[k] != nil && allocated(p.funcs[k]) && p.funcs[k].Func != nil && allocated(p.funcs[k].Func) && p.funcs[k].Func.Body != nil && p.funcs[k].Func.Name == k)
+//@   loop 1 invariant forall i int :: 0 <= i && i < len(m.Imports) ==> (m.Imports[i].ObjKind == token.FUNC ==> has(p.funcs, m.Imports[i].FuncName))
+//@   loop 1 invariant forall i int :: 0 <= i && i <= rangeindex ==> has(p.funcs, m.Funcs[i].Name)
+//@   ensures[rep]    rep_ok(result) && result.m == m
+//@   ensures[covers] covers(result, m)
+//@   noframe
+//@   safe
+//@   property C06
+
+// DoPass: runs without a panic on every module the constructor accepted; the start function is marked;
+// every function it keeps is black and every kept function import is not white (so nothing unmarked survives
+// the filter). The filters reuse the module's slices in place: positions behind the read index are unchanged.
+//@ func (*_RemoveUnusedPass).DoPass
+//@   requires rep_ok(p) && mod_ok(p.m) && covers(p, p.m)
+//@   loop 0 invariant true
+//@   loop 1 invariant rep_ok(p) && (forall i int :: 0 <= i && i <= rangeindex ==> (p.m.Funcs[i].Name != "" && p.m.Funcs[i].Name == p.m.Start ==> p.funcs[p.m.Start].color == black))
+//@   loop 2 invariant rep_ok(p) && (forall i int :: 0 <= i && i <= rangeindex_L1 ==> (p.m.Funcs[i].Name != "" && p.m.Funcs[i].Name == p.m.Start ==> p.funcs[p.m.Start].color == black))
+//@   loop 3 invariant rep_ok(p) && (forall i int :: 0 <= i && i <= rangeindex_L1 ==> (p.m.Funcs[i].Name != "" && p.m.Funcs[i].Name == p.m.Start ==> p.funcs[p.m.Start].color == black))
+//@   loop 4 invariant rep_ok(p) && (forall i int :: 0 <= i && i <= rangeindex_L1 ==> (p.m.Funcs[i].Name != "" && p.m.Funcs[i].Name == p.m.Start ==> p.funcs[p.m.Start].color == black))
+//@   loop 5 invariant rep_ok(p) && ref(m.Imports) == ref(old(p.m.Imports)) && off(m.Imports) == off(old(p.m.Imports)) && 0 <= len(m.Imports) && len(m.Imports) <= rangeindex + 1 && cap(m.Imports) == cap(old(p.m.Imports))
+//@   loop 5 invariant forall i int :: rangeindex < i && i < len(old(p.m.Imports)) ==> old(p.m.Imports)[i] == old(old(p.m.Imports)[i])
+//@   loop 6 invariant rep_ok(p) && ref(m.Funcs) == ref(old(p.m.Funcs)) && off(m.Funcs) == off(old(p.m.Funcs)) && 0 <= len(m.Funcs) && len(m.Funcs) <= rangeindex + 1 && cap(m.Funcs) == cap(old(p.m.Funcs))
+//@   loop 6 invariant forall i int :: rangeindex < i && i < len(old(p.m.Funcs)) ==> old(p.m.Funcs)[i] == old(old(p.m.Funcs)[i])
+//@   loop 6 invariant forall j int :: 0 <= j && j < len(m.Funcs) ==> m.Funcs[j] != nil && has(p.funcs, m.Funcs[j].Name) && p.funcs[m.Funcs[j].Name].color == black
+//@   ensures[start] forall i int :: 0 <= i && i < len(old(p.m.Funcs)) ==> (old(p.m.Funcs[i].Name) != "" && old(p.m.Funcs[i].Name) == old(p.m.Start) ==> p.funcs[old(p.m.Start)].color == black)
+//@   ensures[kept-black] forall j int :: 0 <= j && j < len(result.Funcs) ==> result.Funcs[j] != nil && has(p.funcs, result.Funcs[j].Name) && p.funcs[result.Funcs[j].Name].color == black
+//@   noframe
+//@   safe
+//@   property C06
